@@ -88,6 +88,7 @@ def detect(name, checks=None, tier='quick'):
             viol = [l for l in o.splitlines() if l.startswith('VIOLATION')]
             out[pid] = dict(exit=rc, seconds=round(time.time() - t0, 1),
                             violations=[(' '.join(v.split()[3:]) or v.split('replay=')[1].split('/')[-1])[:160] for v in viol][:8],
+                            undecided=[l.split('obligation=')[1].split(' (')[0][:90] for l in o.splitlines() if l.startswith('UNDECIDED')][:12],
                             n_violations=len(viol), broken=[l[:200] for l in o.splitlines() if l.startswith('CHECKER-BROKEN')][:2],
                             summary=[l for l in o.splitlines() if l.startswith(pid + ' [')][:1])
     finally:
@@ -120,6 +121,44 @@ def table():
     return rows
 
 
+BASE_UNDECIDED = {}      # obligations that are undecided on the unchanged tree (filled by `baseline`)
+try:
+    BASE_UNDECIDED = json.load(open(os.path.join(SEEDED, 'baseline_undecided.json')))
+except Exception:
+    pass
+
+NOTES = {
+    'C18-stale-matching-state': 'first run: MISSED. Added solver-reuse history cases to r_C18 and the static obligation `state_independent_of_previous_calls` (engine F, definite initialisation of instance state)',
+    'C08-lanczos-real-dtype': 'first run: MISSED by C08. Added the dtype lattice (`no narrowing store`) to engine Z for the Krylov iterations and real-valued states to r_C08/r_C09/r_C10',
+    'C07-gauge-right-block-conj': 'would have been missed with gauge cases L<=6; r_C07 now has L=7 (thorough: 8) for every rotated pair',
+    'C06-zero-coeff-filter-tolerance': 'first run: MISSED. r_C06 now includes parameter points scaled by 1e-9 ... 1e+12 (every parameter value is legal)',
+}
+
+
+def markdown():
+    rows = ['| id | property | needs, to manifest | caught by | remark |', '|---|---|---|---|---|']
+    for name in sorted(os.listdir(SEEDED)):
+        mp = os.path.join(SEEDED, name, 'meta.json')
+        if not os.path.exists(mp):
+            continue
+        m = json.load(open(mp))
+        det = m.get('detection', {})
+        by = []
+        for pid, r in det.items():
+            if r['exit'] == 1:
+                ded = sorted({v.split('obligation=')[1].split(' no-failing')[0][:70] for v in r['violations'] if 'obligation=' in v})
+                bnd = sorted({v.split('clause=')[1].split()[0] for v in r['violations'] if 'clause=' in v})
+                lost = [u for u in r.get('undecided', []) if u not in BASE_UNDECIDED.get(pid, ())]
+                by.append(f"{pid}: " + '; '.join((['refuted: ' + ', '.join(f'`{d}`' for d in ded[:2])] if ded else []) + (['proof lost (undecided): ' + ', '.join(f'`{d}`' for d in lost[:2])] if lost else []) + (['bounded: ' + ', '.join(bnd[:4])] if bnd else [])))
+            elif r['exit'] == 0:
+                by.append(f'{pid}: **missed**')
+            else:
+                by.append(f'{pid}: checker broken')
+        needs = (m.get('needs') or '').replace('|', '/').replace('\n', ' ')[:230]
+        rows.append(f"| {name} | {m.get('property')} | {needs} | {' / '.join(by) or 'not run'} | {NOTES.get(name, '')} |")
+    return '\n'.join(rows)
+
+
 if __name__ == '__main__':
     cmd = sys.argv[1]
     if cmd == 'confirm':
@@ -128,3 +167,13 @@ if __name__ == '__main__':
         print(json.dumps(detect(sys.argv[2], sys.argv[3:] or None), indent=1))
     elif cmd == 'table':
         table()
+    elif cmd == 'markdown':
+        print(markdown())
+    elif cmd == 'baseline':
+        base = {}
+        for k in range(1, 21):
+            pid = f'C{k:02d}'
+            rc, o = sh(['python3-vt', '-m', 'vt.cli', 'check', pid, '--tier', 'quick'], cwd=VERIF, env=dict(os.environ, VT_NO_EVIDENCE='1'))
+            base[pid] = [l.split('obligation=')[1].split(' (')[0][:90] for l in o.splitlines() if l.startswith('UNDECIDED')]
+        json.dump(base, open(os.path.join(SEEDED, 'baseline_undecided.json'), 'w'), indent=1)
+        print(base)
